@@ -80,6 +80,17 @@ func driveC14(args []string) error {
 					e.SetCReg(0, false, ivg.PaletteIndexColor(i))
 					tri(e, 0)
 				}),
+				build(custom, func(e *encode.Encoder) { // CREG[i] overwritten, painted, then loaded again from customPalette[i] - the same index
+					e.SetCSel(i)
+					e.SetCReg(0, false, ivg.RGBAColor(color.RGBA{0x80, 0, 0, 0xff}))
+					tri(e, 0)
+					e.SetCReg(0, false, ivg.PaletteIndexColor(i))
+					tri(e, 0)
+					e.SetCSel(i + 3)
+					e.SetCReg(3, false, ivg.RGBAColor(color.RGBA{0, 0, 0x80, 0xff}))
+					e.SetCReg(3, false, ivg.PaletteIndexColor(i)) // the same, through an adjustment
+					tri(e, 3)
+				}),
 				build(custom, func(e *encode.Encoder) { // inside a blend, both operand positions
 					e.SetCSel(2)
 					e.SetCReg(1, false, ivg.BlendColor(0x40, 0x80|i, 0x85))
